@@ -243,10 +243,32 @@ func main() {
 		if after.xbase != before.xbase || after.xptr != before.xptr || after.xlen != before.xlen || after.xcap != before.xcap {
 			what += " x25519.Basepoint"
 		}
+		bad := after.table != before.table || after.base != before.base || after.xbase != before.xbase || after.xptr != before.xptr || after.xlen != before.xlen || after.xcap != before.xcap
 		if after.extra != before.extra {
-			what += " unexported variables (" + diffExtra(before.extra, after.extra) + ")"
+			names := diffExtra(before.extra, after.extra)
+			var known, unknown []string
+			for _, n := range strings.Split(names, ",") {
+				if pinnedVars[n] {
+					known = append(known, n)
+				} else {
+					unknown = append(unknown, n)
+				}
+			}
+			if len(known) > 0 {
+				bad = true
+				what += " package-level variables " + strings.Join(known, ",")
+			}
+			if len(unknown) > 0 {
+				// a variable that does not exist on the pinned tree (e.g. a
+				// cache): its change is not by itself a violation, the
+				// history monitor judges whether results depend on it
+				rec.Inconc("package-level variables added since the pinned tree changed during the workload: " + strings.Join(unknown, ","))
+				rec.Class("state/new-variable-changed", 1)
+			}
 		}
-		rec.Violate("state", what, "state", map[string]interface{}{"op": "none"})
+		if bad {
+			rec.Violate("state", what, "state", map[string]interface{}{"op": "none"})
+		}
 	}
 	rec.Eval("state-snapshot")
 	rec.Sample(map[string]interface{}{"mode": mode, "pool": len(cs), "classes": poolClasses(cs)})
@@ -254,6 +276,29 @@ func main() {
 		rec.Write(out)
 	}
 	fmt.Printf("%s shard %d: evaluations=%d violations=%d\n", mode, shard, rec.Evaluations, rec.NViolations)
+}
+
+// package-level variables of the pinned tree: constant tables, test
+// switches and the exported base point.  None may change while API calls run.
+var pinnedVars = map[string]bool{
+	"curve25519.maxBignum": true,
+	"curve25519.maxBignum2SquaredRaw": true,
+	"curve25519.maxBignum3SquaredRaw": true,
+	"curve25519.maxBignumRaw": true,
+	"curve25519.maxBignumSquaredRaw": true,
+	"ed25519.errArgCounts": true,
+	"ed25519.order": true,
+	"ed25519.testBatchSaveY": true,
+	"ed25519.testBatchY": true,
+	"ge25519.Basepoint": true,
+	"ge25519.NielsBaseMultiples": true,
+	"ge25519.ec2d": true,
+	"ge25519.ecd": true,
+	"ge25519.nielsSlidingMultiples": true,
+	"ge25519.sqrtNeg1": true,
+	"ge25519.unalignedOk": true,
+	"x25519.Basepoint": true,
+	"x25519.basePoint": true,
 }
 
 func poolClasses(cs []calls.Call) map[string]int {
